@@ -217,6 +217,7 @@ def c08(run):
     P = run.prog('rel')
     r_cnt.run(run, P)
     r_cnt.run_dequeue(run, P)
+    r_cnt.run_counted_queued(run, P)
     from rules import r_ownnode
     r_ownnode.run_queue_key(run, P)       # the node an ACK/RST retires is the one of that session and message id
     run.min_instances('R-CNT-CON', 8)
